@@ -376,6 +376,7 @@ pub fn begin(flavor: Flavor, h: &HCfg) -> Arc<dyn Drv> {
     let _ = val::take_log();
     val::VLD_MODE.store(h.vld_mode, Ordering::SeqCst);
     clock::set(h.start_ns);
+    crate::driver::seeded::set_seed(h.seed);
     observe::enable(true);
     val::log_enable(true);
     sched::set_role(100);
@@ -585,7 +586,7 @@ fn key_timeline(hist: &Hist, key: u64, upto: u64) -> Vec<String> {
     }
     evs.sort();
     let n = evs.len();
-    evs.into_iter().skip(n.saturating_sub(40)).map(|e| e.1).collect()
+    evs.into_iter().skip(n.saturating_sub(80)).map(|e| e.1).collect()
 }
 
 fn describe(hist: &Hist) -> Value {
